@@ -1080,6 +1080,10 @@ func ColumnDefault(c *schema.Column) (cty.Value, error) {
 				if err != nil {
 					return cty.NilVal, err
 				}
+				// Same for numbers with more digits than a float64 holds.
+				if strconv.FormatFloat(f, 'f', -1, 64) != x.V {
+					return raw, nil
+				}
 				return cty.NumberFloatVal(f), nil
 			}
 			switch i, err := strconv.ParseInt(x.V, 10, 64); {
